@@ -14,7 +14,8 @@ BACKENDS = ['generalized', 'spring', 'positional']
 RULE = ('every registered physics environment x every backend its constructor '
         'accepts x reset keys PRNGKey(0..K) x the full action-word tree over '
         'the alphabet {all -1, all +1, 0, alternating +-1, seeded uniform '
-        'vector} (letters held for a block of steps, all words as members of '
+        'vector} (letters held for a block of steps) plus 32 (80 thorough) fast '
+        'seeded bang-bang members (sign flips every 1..21 steps), all as members of '
         'one batch) through training.wrap(env, episode_length=1000): contract '
         '(observation size, action size, done=0 after reset, bitwise '
         'determinism of reset and step) and, at EVERY step of every word, '
@@ -62,18 +63,29 @@ def run_task(task):
     res['evaluations'] = 1
     res['outcomes'] = ['unsupported']
     return res
-  L, hold, K = (2, 50, 3) if tier == 'quick' else (4, 50, 16)
+  L, hold, K = (2, 50, 3) if tier == 'quick' else (4, 75, 16)
   A = env.action_size
   letters = _letters(A, seed)
   words = list(itertools.product(range(len(letters)), repeat=L))
   if tier != 'quick':
     words = words[:625]
-  B = len(words)
+  # extra members: fast seeded bang-bang (independent signs per dimension,
+  # flipping every 1 (half of the members), 2, 3, 5, 8, 13, 21 steps)
+  periods = [1] * (16 if tier == 'quick' else 128) + [2, 2, 3, 3, 5, 5, 8, 8,
+                                                      13, 13, 21, 21, 2, 3, 5,
+                                                      8]
+  NB = len(periods)
+  B = len(words) + NB
   T = L * hold
   acts = np.zeros((T, B, A), np.float32)
   for b, w in enumerate(words):
     for li, l in enumerate(w):
       acts[li * hold:(li + 1) * hold, b] = letters[l]
+  rngb = np.random.RandomState(700 + seed)
+  for k, period in enumerate(periods):
+    signs = rngb.choice([-1.0, 1.0], size=(T // period + 1, A))
+    acts[:, len(words) + k] = np.repeat(signs, period, axis=0)[:T]
+  words = words + [(-1 - k,) * L for k in range(NB)]
   keys = jp.stack([jax.random.PRNGKey(b % K) for b in range(B)])
   wenv = training.wrap(env, episode_length=1000)
   reset = jax.jit(wenv.reset)
